@@ -400,6 +400,9 @@ def obs_streams(orc, project=None):
             Stream("random", "obs", gens.obs_random(rng, n), obs_nontriv, False,
                    "%d seeded random histories of 10..40 calls (up to ~8 subscribers, several clones and weak references), ending with all owners dropped and every subscriber polled" % n,
                    obs_hist, oracles=orc, project=project),
+            Stream("after-last-owner", "obs", gens.obs_after_last_owner(3 if q else 4), lambda c, o: True, True,
+                   "handle life cycles around the death of the last owner (a subscriber and a weak reference outlive every handle, or a handle obtained by upgrade outlives the original): 4 prefixes x every sequence of <= %d calls over upgrade / counts / clone / drop_owner / poll / clone_weak / drop_weak / drop of the subscriber / set, on SharedObservable and through write guards" % (3 if q else 4),
+                   obs_hist, oracles=orc, project=project),
         ]
     return f
 
@@ -409,7 +412,7 @@ PROPS.update({
                 assumptions=["single-threaded histories (thread interleavings: C02/C04)", "fewer than 2^64-1 notifying updates"],
                 level_text="Coq theorem: the implementation model (version counter + observed_version) refines, call by call and for whole histories, the specification written from the property text (current value + one unseen flag per subscriber) - for all values, equality/hash functions, numbers of subscribers and call sequences. Tied to state.rs/subscriber.rs/unique.rs/shared.rs by an exhaustive short-history run and random histories on Observable, SharedObservable and write guards, with the specification re-implemented in the harness as an independent oracle.",
                 level_note="Trusted: Coq kernel, extraction, harness; locks/Arc at operation granularity; version counter unbounded."),
-    "C19": dict(streams=obs_streams({"counts"}, proj_obs("counts")), trusted=OBS_TRUST,
+    "C19": dict(streams=obs_streams({"counts", "inventory"}, proj_obs("counts")), trusted=OBS_TRUST,
                 assumptions=["default (sync) lock flavour; the async flavour is handled with C16"],
                 strength="full for the default lock flavour; async flavour: see C16 / known findings",
                 level_text="Coq theorems: the four count functions report exactly the populations of owners, live subscribers and weak references, and every call changes those populations by exactly the handles it creates or drops (delta table), in every reachable state. Tied to the crate by calling the real count functions inside the C01 histories (counts is part of the alphabet) and comparing with the model and with the harness's own handle bookkeeping.",
@@ -477,6 +480,12 @@ def ovec_streams(kind, orc, project=None):
         st.append(Stream("random", "ovec", gens.ovec_random(rng, n, lagbias=(kind in ("c06", "c08"))), ovec_nontriv, False,
                          "%d seeded random histories of 3..60 operations: all mutators (5%% out of range), entry traversals, transactions with rollbacks, up to 4 subscribers of both flavours created and dropped at any time, polls and drains, capacities 1..16%s" % (n, ", low poll rates" if kind in ("c06", "c08") else ""),
                          ovec_hist, oracles=orc, project=project))
+        if kind in ("c06", "c08"):
+            st.append(Stream("channel-model", "bcast", gens.bcast_exhaustive(4 if q else 6) + gens.bcast_random(rng, 3000 if q else 60000),
+                             lambda c, o: "Lagged" in o or "Closed" in o, False,
+                             "the channel model itself (OVec.try_recv over a position log, capacity rounded up to a power of two) against tokio::sync::broadcast, no eyeball code in between: every sequence of <= %d operations over send / subscribe / resubscribe / try_recv on two receivers / drop of a receiver / drop of the sender at capacities 1..5, and %d random sequences of up to 80 operations with up to 5 receivers at capacities 1..17; results compared including the number a Lagged reports" % ((4, 3000) if q else (6, 60000)),
+                             lambda c, o: c.split(" :: ")[0] + "/" + ("lagged" if "Lagged" in o else "window") + "/" + ("closed" if "Closed" in o else "open"),
+                             oracles=set()))
         if kind in ("c05", "c06", "c08"):
             dorc = {"c05": {"app", "hist", "replica"},
                     "c06": {"app", "hist", "replica", "uptodate", "lagreset", "nonempty"},
@@ -570,7 +579,7 @@ def c19_streams(tier, rng):
     n = 2000 if q else 50000
     st.append(Stream("async", "obs", gens.obs_exhaustive(2 if q else 3, heads=AHEADS) + gens.obs_random(rng, n, heads=AHEADS),
                      obs_nontriv, False,
-                     "the same histories (count functions included) on the async-lock flavour", obs_hist, oracles={"counts"},
+                     "the same histories (count functions included) on the async-lock flavour", obs_hist, oracles={"counts", "inventory"},
                      project=proj_obs("counts")))
     return st
 
